@@ -254,6 +254,13 @@ where I: DoubleEndedIterator<Item = X> + ExactSizeIterator {
             'X' => { it.fold((), |(), x| { out.push(format!("F{}", show(x, k))); k += 1; }); return out.join(",") }
             'Y' => { it.rfold((), |(), x| { out.push(format!("B{}", show(x, k))); k += 1; }); return out.join(",") }
             'V' => { it.rev().for_each(|x| { out.push(format!("B{}", show(x, k))); k += 1; }); return out.join(",") }
+            // the reversed iterator (method syntax `.rev()`), stepped from both of ITS ends alternately until exhausted:
+            // its `next` is the original's `next_back` and vice versa
+            'W' => { let mut rv = it.rev(); let mut front = true;
+                loop { let y = if front { rv.next() } else { rv.next_back() };
+                    match y { Some(x) => { out.push(format!("{}{}", if front { "B" } else { "F" }, show(x, k))); k += 1; } None => break }
+                    front = !front; }
+                return out.join(",") }
             'F' => out.push(match it.next() { Some(x) => { let s = format!("F{}", show(x, k)); k += 1; s } None => "Fnone".into() }),
             'B' => out.push(match it.next_back() { Some(x) => { let s = format!("B{}", show(x, k)); k += 1; s } None => "Bnone".into() }),
             // adaptor-style consumption: nth / nth_back (in range and overshooting), last, count
@@ -460,6 +467,13 @@ macro_rules! interp {
                         let ea: Vec<T> = tags.iter().map(|t| mk(0, *t)).collect(); let eb: Vec<T> = tags.iter().map(|t| mk(1, *t)).collect();
                         (exec(0, || { regs[r].extend(ea.into_iter().enumerate().map(move |(i, x)| { if i == k { panic!("the iterator panics") } x })); }),
                          exec(1, || { mirs[r].extend(eb.into_iter().enumerate().map(move |(i, x)| { if i == k { panic!("the iterator panics") } x })); })) }
+                    // `extend` / `collect` from an iterator whose size_hint promises only its first `lo` items (the rest comes out of a filter)
+                    "extend_lo" | "collect_lo" => { let r = reg(w[1]); let tags = parse_list(w[2]); let lo = arg(3).min(tags.len());
+                        let ea: Vec<T> = tags.iter().map(|t| mk(0, *t)).collect(); let eb: Vec<T> = tags.iter().map(|t| mk(1, *t)).collect();
+                        fn lo_iter<X>(mut v: Vec<X>, lo: usize) -> impl Iterator<Item = X> { let rest = v.split_off(lo); v.into_iter().chain(rest.into_iter().filter(|_| true)) }
+                        let coll = w[0] == "collect_lo";
+                        (exec(0, || { if coll { regs[r] = lo_iter(ea, lo).collect(); } else { regs[r].extend(lo_iter(ea, lo)); } }),
+                         exec(1, || { if coll { mirs[r] = lo_iter(eb, lo).collect(); } else { mirs[r].extend(lo_iter(eb, lo)); } })) }
                     "collect" => { let r = reg(w[1]); let tags = parse_list(w[2]);
                         let ea: Vec<T> = tags.iter().map(|t| mk(0, *t)).collect(); let eb: Vec<T> = tags.iter().map(|t| mk(1, *t)).collect();
                         (exec(0, || { regs[r] = ea.into_iter().collect(); }), exec(1, || { mirs[r] = eb.into_iter().collect(); })) }
